@@ -1172,6 +1172,7 @@ int dsh(opt_t * opt)
 
     /* start the signals thread */
     _dsh_attr_init (&attr_sig, DSH_THREAD_STACKSIZE);
+    pthread_attr_setdetachstate (&attr_sig, PTHREAD_CREATE_JOINABLE);
     rv = pthread_create(&thread_sig, &attr_sig, _signals_thread, (void *) t);
 
     /* start all the other threads (at most 'fanout' active at once) */
@@ -1235,6 +1236,8 @@ int dsh(opt_t * opt)
      * Cancel signals thread and unblock SIGINT/SIGTSTP
      */
     pthread_cancel(thread_sig);
+    /* cancellation is deferred: a handler that is running ends first -- before t[] is freed */
+    pthread_join(thread_sig, NULL);
     _mask_signals (SIG_UNBLOCK);
 
     /* if -S, our exit value is the largest of the return codes */
